@@ -54,6 +54,8 @@ type simRun struct {
 	lHit    []int
 	lDeath  []int
 	lHP     []int
+	lPh1    []int
+	lPh2    []int
 	budget  int
 	rev     map[key.TargetID]bool
 	trace   []term.T
@@ -159,6 +161,11 @@ func (r *simRun) subscribe(eng engine.Engine) {
 	r.subbed = true
 	ev := eng.Events()
 	ev.BattleStart.Subscribe(func(e event.BattleStart) {
+		// every unit carries the content's tick modifier: its OnPhase1 / OnPhase2 listeners are
+		// called by Modifier.Tick(active, ModifierPhase1 / ModifierPhase2)
+		for _, id := range append(append([]key.TargetID{}, eng.Characters()...), eng.Enemies()...) {
+			eng.AddModifier(id, info.Modifier{Name: "verif_tick", Source: id, Duration: -1})
+		}
 		if i, ok := r.popSlot(&r.lBattle); ok {
 			r.execOps(r.script(i), 0, 0)
 		}
@@ -458,6 +465,23 @@ func registerSimContent() {
 		Rarity:        3,
 		Path:          model.Path_PRESERVATION,
 	})
+	modifier.Register("verif_tick", modifier.Config{
+		Stacking: modifier.Unique,
+		Listeners: modifier.Listeners{
+			OnPhase1: func(mod *modifier.Instance) {
+				r := curSim
+				if i, ok := r.popSlot(&r.lPh1); ok {
+					r.execOps(r.script(i), mod.Owner(), mod.Owner())
+				}
+			},
+			OnPhase2: func(mod *modifier.Instance) {
+				r := curSim
+				if i, ok := r.popSlot(&r.lPh2); ok {
+					r.execOps(r.script(i), mod.Owner(), mod.Owner())
+				}
+			},
+		},
+	})
 	for _, f := range simFlags {
 		modifier.Register(key.Modifier(fmt.Sprintf("verif_flag_%d", f)), modifier.Config{
 			Stacking:      modifier.Unique,
@@ -476,10 +500,10 @@ func intList(t term.T) []int {
 
 func runSim(in term.T) term.T {
 	simOnce.Do(registerSimContent)
-	_, a := term.Ctor(in) // mkCfg units scripts next ults lb la lh ld lhp limit budget
+	_, a := term.Ctor(in) // mkCfg units scripts next ults lb la lh ld lhp lph1 lph2 limit budget
 	r := &simRun{acts: map[key.TargetID][]int{}, next: map[key.TargetID][]term.T{}, rev: map[key.TargetID]bool{}}
 	curSim = r
-	cfg := &model.SimConfig{Settings: &model.SimulatorSettings{CycleLimit: uint32(term.Int(a[9]))}}
+	cfg := &model.SimConfig{Settings: &model.SimulatorSettings{CycleLimit: uint32(term.Int(a[11]))}}
 	allWeak := []model.DamageType{}
 	for i := 1; i < len(model.DamageType_name); i++ {
 		allWeak = append(allWeak, model.DamageType(i))
@@ -522,7 +546,8 @@ func runSim(in term.T) term.T {
 		r.ults = append(r.ults, term.List(u))
 	}
 	r.lBattle, r.lAction, r.lHit, r.lDeath, r.lHP = intList(a[4]), intList(a[5]), intList(a[6]), intList(a[7]), intList(a[8])
-	r.budget = int(term.Int(a[10]))
+	r.lPh1, r.lPh2 = intList(a[9]), intList(a[10])
+	r.budget = int(term.Int(a[12]))
 
 	r.sim = simulation.NewSimulation(cfg, &vEval{r: r}, 7)
 	logging.InitLoggers(&simLogger{r: r})
